@@ -61,23 +61,35 @@ def rule_default(ctx: Ctx, repo: Repo) -> None:
         ctx.check(len(cs) >= 1, "R-C06.1", fi.fq, "the limit used is config.max_typed_dict_size()", construct=f"{len(cs)} config reads")
 
 
-def _ok_source(repo: Repo, caller: FunctionInfo, a: Optional[ast.AST], call: ast.Call) -> Tuple[bool, str]:
-    if a is None:
-        return False, "argument omitted (falls back to a default or is missing)"
+def _ok_root(repo: Repo, caller: FunctionInfo, a: ast.AST, kind: str) -> Tuple[bool, str]:
     if isinstance(a, ast.Name) and a.id == PARAM:
-        if PARAM not in caller.params:
-            return False, f"`{PARAM}` is not a parameter of the caller"
-        g = cfg_of(caller)
-        n = g.node_of(call)
-        if n is not None and not all(k == "param" for _, k, _ in g.origins(a, n.id)):
-            return False, "the caller's limit is rebound before the call"
+        if kind != "param" or PARAM not in caller.params:
+            return False, f"`{PARAM}` is not the caller's parameter here"
         return True, ""
     if isinstance(a, ast.Attribute) and a.attr == PARAM and isinstance(a.value, ast.Name) and a.value.id == "self" and caller.cls is not None:
-        ok, why = attr_is_param(repo, caller.cls, PARAM, PARAM)
-        return ok, why
+        return attr_is_param(repo, caller.cls, PARAM, PARAM)
     if isinstance(a, ast.Call) and isinstance(a.func, ast.Attribute) and a.func.attr == PARAM and not a.args and not a.keywords:
         return True, ""
     return False, f"`{norm(a)}` is not the caller's limit"
+
+
+def _ok_source(repo: Repo, caller: FunctionInfo, a: Optional[ast.AST], call: ast.Call) -> Tuple[bool, str]:
+    """the argument denotes the caller's own limit: its parameter, self.<limit> or config.<limit>(), possibly through
+    local names"""
+    if a is None:
+        return False, "argument omitted (falls back to a default or is missing)"
+    g = cfg_of(caller)
+    n = g.node_of(call)
+    if n is None:
+        return _ok_root(repo, caller, a, "param" if isinstance(a, ast.Name) and a.id in caller.params else "expr")
+    roots = g.origins(a, n.id)
+    if not roots:
+        return False, "no definition reaches the argument"
+    for r, kind, _ in roots:
+        ok, why = _ok_root(repo, caller, r, kind)
+        if not ok:
+            return False, why if why else "the caller's limit is rebound before the call"
+    return True, ""
 
 
 def rule_forwarding(ctx: Ctx, repo: Repo) -> None:
@@ -85,8 +97,13 @@ def rule_forwarding(ctx: Ctx, repo: Repo) -> None:
     ctx.floor("R-C06.2", f"functions with a {PARAM} parameter", len(carriers), 10)
     sites = call_sites(repo, lambda c: PARAM in c.params)
     ctx.floor("R-C06.2", f"call sites of functions carrying {PARAM}", len(sites), 28)
+    from . import glue_model as GM
+    GM.check_forwarding(ctx, repo, "R-C06.2", PARAM, PARAM, "call of trace_calls forwards the configuration's limit")
+    GM.check_tracer_forwarding(ctx, repo, "R-C06.2", PARAM, PARAM, "call of CallTracer.__init__ forwards the caller's limit")
     for caller, call, callee in sites:
         ctx.functions.add(caller.fq)
+        if caller.fq in ("monkeytype.trace", "monkeytype.tracing.trace_calls"):
+            continue  # decided by interpretation above (any spelling of the call)
         a = bound_argument(callee, call, PARAM)
         ok, why = _ok_source(repo, caller, a, call)
         ctx.check(ok, "R-C06.2", caller.fq, f"call of {callee.qualname} forwards the caller's limit",
